@@ -621,6 +621,9 @@ func init() {
 	intrinsics["regexp.MustCompile"] = reCompile(true)
 	intrinsics["regexp.Compile"] = reCompile(false)
 
+	for _, n := range []string{"log.Printf", "log.Println", "log.Print"} {
+		intrinsics[n] = nop
+	}
 	intrinsics["os.Getenv"] = func(fr *frame, args []value) value { return "" }
 	intrinsics["runtime.Gosched"] = nop
 	intrinsics["errors.Is"] = nil
